@@ -245,6 +245,9 @@ theorem pushRangeList_group (h : HL) (hg : h.Good) (pfx : Str) (g : List Spec.Ra
 def fitsHostBuf (pfx sfx : Str) (r : Spec.Range) : Prop :=
   pfx.length + max r.loS.length (ndig r.hi) + sfx.length ≤ HOSTBUF - 1
 
+instance (pfx sfx : Str) (r : Spec.Range) : Decidable (fitsHostBuf pfx sfx r) := by
+  unfold fitsHostBuf; exact inferInstance
+
 theorem suffixedName_eq {pfx sfx : Str} {r : Spec.Range} (hf : fitsHostBuf pfx sfx r) {j : Nat}
     (hj : j ≤ r.hi) : suffixedName pfx sfx r.loS.length j = pfx ++ fmtPad r.loS.length j ++ sfx := by
   unfold suffixedName
@@ -426,6 +429,10 @@ def wordDom : Spec.Word → Prop
   | .plain n => n.length < CURTOK - 1
   | .br pre g1 mid g2 =>
     (∀ r ∈ g1, r.hi < ULONG_MAX) ∧ (∀ r ∈ g1, fitsHostBuf pre (mid ++ Spec.renderTail g2) r)
+
+instance : (w : Spec.Word) → Decidable (wordDom w)
+  | .plain n => by unfold wordDom; exact inferInstance
+  | .br pre g1 mid g2 => by unfold wordDom; exact inferInstance
 
 theorem textChar_no {s : Str} (h : s.all Spec.textChar = true) : '[' ∉ s ∧ ']' ∉ s := by
   simp only [List.all_eq_true] at h
